@@ -241,9 +241,9 @@ HARNESSES = {
         timeout=dict(quick=900, thorough=3300), max_paths=dict(quick=400000, thorough=3000000),
         replay=dict(kind="check_graph")),
     "outcomes": dict(props=["C01", "C06"], crates=CR, fn=outcomes,
-        params=dict(quick=dict(N=2, NE=2), thorough=dict(N=3, NE=3)), witnesses=["dag-ok", "dag-fail"],
+        params=dict(quick=dict(N=2, NE=2), thorough=dict(N=3, NE=2)), witnesses=["dag-ok", "dag-fail"],
         bound=dict(quick="1..2 nodes, <=2 edges (any u16), one node may fail / be unsatisfied / output data, both values of collect_all_failures",
-                   thorough="1..3 nodes, <=3 edges"),
+                   thorough="1..3 nodes, <=2 edges"),
         timeout=dict(quick=900, thorough=3300), max_paths=dict(quick=400000, thorough=3000000),
         replay=dict(kind="check_graph")),
 }
